@@ -481,4 +481,41 @@ theorem adjustPass2_ok (edges : List Hint) (len : Nat) (hlen : len ≤ edges.len
       exact ih hrest
     · exact ih hrest
 
+/-! ### the two scans of `transform` -/
+
+theorem transformUp_ok (edges : List Hint) (limit : Nat) (ge : Nat → Bool) (hl : limit < edges.length) :
+    ∀ (fuel i : Nat), i ≤ limit → ∃ r, transformUp edges limit ge fuel i = some r ∧ r ≤ limit := by
+  intro fuel
+  induction fuel with
+  | zero => intro i hi; exact ⟨i, rfl, hi⟩
+  | succ f ih =>
+    intro i hi
+    unfold transformUp
+    split
+    · obtain ⟨v, hv⟩ := getAt_ok (l := edges) (i := i + 1) (by omega)
+      rw [hv]
+      simp only []
+      split
+      · exact ih (i + 1) (by omega)
+      · exact ⟨i, rfl, hi⟩
+    · exact ⟨i, rfl, hi⟩
+
+theorem transformDown_ok (edges : List Hint) (lt : Nat → Bool) :
+    ∀ (fuel i : Nat), i < edges.length → ∃ r, transformDown edges lt fuel i = some r ∧ r ≤ i := by
+  intro fuel
+  induction fuel with
+  | zero => intro i hi; exact ⟨i, rfl, Nat.le_refl _⟩
+  | succ f ih =>
+    intro i hi
+    unfold transformDown
+    split
+    · obtain ⟨v, hv⟩ := getAt_ok (l := edges) (i := i) hi
+      rw [hv]
+      simp only []
+      split
+      · obtain ⟨r, hr, hle⟩ := ih (i - 1) (by omega)
+        exact ⟨r, hr, by omega⟩
+      · exact ⟨i, rfl, Nat.le_refl _⟩
+    · exact ⟨i, rfl, Nat.le_refl _⟩
+
 end FontVerif.HintMap
